@@ -3,8 +3,8 @@ import re
 from ..main import k_suite, Violation, parse_mismatch, Trace
 from .. import gen
 
-LEAN_MODULES = ["Shm.Props.C17"]
-GEN_TABLES = ["StoreSample.lean"]
+LEAN_MODULES = ["Shm.Props.C17", "Shm.Props.FactsC16"]      # FactsC16: no method retakes a mutex it holds ("every call returns")
+GEN_TABLES = ["StoreSample.lean", "LockFacts.lean"]
 LEVEL = "exploration"
 VARIANTS = ("plain", "asan")
 REPLAY_VARIANT = "asan"
